@@ -1,5 +1,5 @@
 """C09 - a terminal event stops the integration exactly at the event (scenario runner shared with C07)."""
-import p_c07, evloopsim
+import p_c07, evloopsim, eventsim
 
 ID = "C09"
 LEAN_TARGETS = ["DVP.Properties.C09", "DVP.Findings.C09"]
@@ -9,8 +9,66 @@ ASSUMPTIONS = p_c07.ASSUMPTIONS
 
 
 def run(ctx):
-    p_c07.run_focus(ctx, "C09", 50, 500)
+    p_c07.run_focus(ctx, "C09", 58, 508)
     event_loop_block(ctx, 30, 300)
+    infinite_target_block(ctx)
+
+
+def infinite_target_block(ctx):
+    """infinite target times, both directions (t = (t0, +inf) and (t0, -inf)): a terminal event is the only way to stop; the stop, the
+    status, the order of the events and the continuation to a finite target are judged as for finite targets"""
+    import numpy as _np
+    rng = ctx.rng
+    for mname in (["RK4Solver", "RK45CKSolver"] if ctx.quick() else ["RK4Solver", "RK45CKSolver", "RK8713MSolver", "DOPRI45", "ABAs5o6HSolver"]):
+        for sign in (1.0, -1.0):
+            for rep in range(2 if ctx.quick() else 6):
+                t0 = rng.choice([0.0, -1.5, 2.0])
+                dt = rng.choice([0.1, 0.25]) * rng.choice([1, -1])          # the constructor fixes the direction
+                dense = rng.random() < 0.5
+                c = rng.choice([0.3, -0.5, 0.25])
+                term = eventsim.make_event(rng.choice(["y0", "y1"]), c, rng.choice([1.0, -10.0, 1e3]), 0, True)
+                other = eventsim.make_event("y0", 0.8, 1.0, 0, False)
+                evs = [other, term]
+                inp = dict(kind="infinite-target", method=mname, t0=t0, tf="+inf" if sign > 0 else "-inf", dt=dt, dense=dense, events=[e.desc for e in evs])
+                try:
+                    ode = p_c07.de.OdeSystem(eventsim.harmonic, y0=_np.array([1.0, 0.0]), t=(t0, sign * _np.inf), dt=dt, dense_output=dense, rtol=1e-9, atol=1e-11)
+                    ode.set_method(p_c07.method_class(mname))
+                    nb = [0]
+
+                    def budget(o, nb=nb):
+                        nb[0] += 1
+                        if nb[0] > 20000:
+                            raise RuntimeError("no terminal stop within 20000 steps")
+                    ode.integrate(events=evs, callback=[budget])
+                except Exception as e:
+                    ctx.oracle("infinite-target-run-succeeds", False, dict(inp, error=repr(e)[:200], cause=repr(getattr(e, "__cause__", None))[:120]),
+                               key="backward-infinite-target-raises" if sign < 0 and isinstance(e, OverflowError) else "infinite-target-run-succeeds",
+                               what="integration toward %sinf with a terminal event raised %r" % ("+" if sign > 0 else "-", e))
+                    continue
+                t = _np.array(ode.t)
+                ex = eventsim.harmonic_exact(t0)
+                term_evs = [float(e.t) for e in ode.events if e.event is term]
+                ok_stop = ode.integration_status.startswith("Integration terminated") and ode.success and len(term_evs) == 1 and abs(float(t[-1]) - term_evs[0]) <= 1e-12
+                ctx.oracle("stops-at-event-time", ok_stop, dict(inp, status=ode.integration_status[:40], last=float(t[-1]), terminal_events=term_evs),
+                           what="run toward infinity: status %r, last time %r, terminal events %s" % (ode.integration_status[:40], float(t[-1]), term_evs))
+                ctx.oracle("trajectory-monotone", bool(_np.all(_np.diff(t) * sign > 0)), dict(inp, tail=[float(x) for x in t[-4:]]), what="recorded times not monotone toward %sinf" % ("+" if sign > 0 else "-"))
+                hv = eventsim.exact_h(term.desc["kind"], float(t[-1]), ex)
+                hmax = float(_np.max(_np.abs(_np.diff(t)))) if len(t) > 1 else 0.0
+                ctx.oracle("last-state-on-event-surface", abs(hv - c) <= 1e-6, dict(inp, residual=hv - c, largest_step=hmax),
+                           key="event-location-limited-by-cubic-dense-output" if abs(hv - c) <= 0.5 * hmax ** 4 else "last-state-off-event-surface",
+                           what="the exact trajectory has h - c = %.3e at the stop" % (hv - c))
+                ets = [float(e.t) for e in ode.events]
+                ctx.oracle("events-in-order", all((b - a) * sign >= -1e-12 for a, b in zip(ets, ets[1:])) and all((float(t[-1]) - x) * sign >= -1e-9 for x in ets), dict(inp, times=ets), what="events out of order or beyond the stop: %s" % ets)
+                # continuation to a finite target
+                try:
+                    target = float(t[-1]) + sign * 1.5
+                    ode.integrate(target)
+                    err = float(_np.max(_np.abs(ode.y[-1] - ex(float(ode.t[-1])))))
+                    ctx.oracle("continues-after-stop", abs(float(ode.t[-1]) - target) <= 1e-9 and err <= (1e-6 if mname != "RK4Solver" else 1e-3), dict(inp, end=float(ode.t[-1]), target=target, err=err),
+                               what="continuation to %r ended at %r with error %.2e" % (target, float(ode.t[-1]), err))
+                except Exception as e:
+                    ctx.oracle("continues-after-stop", False, dict(inp, error=repr(e)[:200]), what="continuation after a stop on the way to infinity raised %r" % (e,))
+                ctx.count("infinite-target:%s" % ("+inf" if sign > 0 else "-inf"))
 
 
 def event_loop_block(ctx, n_quick, n_thorough):
